@@ -48,6 +48,19 @@ func zzRunPlan(name string, base zzCfg, v, v2 int, plan [][]zzPlanOp) (errs []bo
 		db.StrictMode = true
 	}
 	zzSetup(db, 1)
+	// a nested bucket of about 450 bytes: stored inline at page size 4096, on its own page at 1024
+	err = db.Update(func(tx *Tx) error {
+		mid, err := tx.Bucket([]byte("b")).CreateBucket([]byte("mid"))
+		if err != nil {
+			return err
+		}
+		if err := mid.Put([]byte("m1"), zzVal(200, 'm')); err != nil {
+			return err
+		}
+		return mid.Put([]byte("m2"), zzVal(200, 'n'))
+	})
+	zz.Assert(err == nil, "options/setup-mid")
+	wantSeqB, wantSeqMid := uint64(0), uint64(0)
 	for t, ops := range plan {
 		err := db.Update(func(tx *Tx) error {
 			b := tx.Bucket([]byte("b"))
@@ -61,7 +74,16 @@ func zzRunPlan(name string, base zzCfg, v, v2 int, plan [][]zzPlanOp) (errs []bo
 				case 2:
 					_, e = b.CreateBucketIfNotExists(op.key)
 				case 3:
-					_, e = b.NextSequence()
+					var sq uint64
+					sq, e = b.NextSequence()
+					wantSeqB++
+					zz.Assert(e == nil && sq == wantSeqB, "options/next-sequence-counts-up")
+				case 4:
+					// a transaction whose only change to the nested bucket is its sequence
+					var sq uint64
+					sq, e = b.Bucket([]byte("mid")).NextSequence()
+					wantSeqMid++
+					zz.Assert(e == nil && sq == wantSeqMid, "options/next-sequence-counts-up")
 				}
 				errs = append(errs, e == nil)
 			}
@@ -69,6 +91,11 @@ func zzRunPlan(name string, base zzCfg, v, v2 int, plan [][]zzPlanOp) (errs []bo
 		})
 		zz.Assert(err == nil, "options/update")
 		dumps = append(dumps, zzViewDump(db, "options/dump"))
+		_ = db.View(func(tx *Tx) error {
+			b := tx.Bucket([]byte("b"))
+			zz.Assert(b.Sequence() == wantSeqB && b.Bucket([]byte("mid")).Sequence() == wantSeqMid, "options/sequences-are-the-number-of-NextSequence-calls")
+			return nil
+		})
 		if t == len(plan)-1 {
 			zzCheckAll(db, path, c, "options/accounting")
 		}
@@ -78,7 +105,13 @@ func zzRunPlan(name string, base zzCfg, v, v2 int, plan [][]zzPlanOp) (errs []bo
 			c2, o2 := zzVariant(base, v2)
 			c2.pageSize = c.pageSize // the page size is a property of the file
 			o2.PageSize = c.pageSize
+			if rp := zz.Param("reopenps", 0); rp != 0 && v != 0 {
+				o2.PageSize = rp // an existing file keeps its page size whatever the option says
+			}
 			db, err = Open(path, 0600, o2)
+			if err == nil {
+				zz.Assert(db.pageSize == c.pageSize, "options/reopen-keeps-the-files-page-size")
+			}
 			zz.Assert(err == nil, "options/reopen")
 			c = c2
 			dumps = append(dumps, zzViewDump(db, "options/dump-after-reopen"))
@@ -120,7 +153,7 @@ func HarnessOptions() {
 				}
 			} else {
 				// second transaction: concrete variants (delete a setup key, overflow value, sequence)
-				op = []zzPlanOp{{kind: 1, key: []byte("k08")}, {kind: 0, key: []byte("ovx"), vlen: 2100}, {kind: 3}}[zz.Choose(3)]
+				op = []zzPlanOp{{kind: 1, key: []byte("k08")}, {kind: 0, key: []byte("ovx"), vlen: 2100}, {kind: 3}, {kind: 4}}[zz.Choose(4)]
 			}
 			ops = append(ops, op)
 		}
